@@ -87,7 +87,9 @@ def run_pets(sc):
     rec = Recorder()
     env = _box_env(rec, sc)
     ls = sc["warm"]
-    nspi = sc.get("n_steps_per_iteration", 4)
+    # with a long warm-up the model is refined every 2 steps: steps t < learning_starts with (learning_starts - t) a
+    # multiple of the interval then exist at which the buffer already holds enough rows for a real update
+    nspi = sc.get("n_steps_per_iteration", 2 if ls >= 6 else 4)
     state = pets.create_pets_state(env, seed=sc["seed"], n_ensemble=2, hidden_nodes=(4,), learning_rate=0.01, batch_size=2)
     rec.watch_module("dynamics", state.model)
     buf = recording_buffer(rb.ReplayBuffer, rec, sc["cap"])
